@@ -5,13 +5,20 @@
 From WS Require Import Base.Py Base.Str Base.Counter.
 From Coq Require Import QArith Qabs Qminmax.
 
-Definition UB : str := [85; 66]%N.
-Definition sUBs : str := [32; 85; 66; 32]%N.
+(* The utterance boundary marker.  Since the repair of the in-band marker ('UB' was an ordinary string,
+   which a text can contain) it is an object equal to no unit; units come from str.split(), so they are
+   non-empty: the empty string stands for that object. *)
+Definition UB : str := [].
 
 Inductive dep := Ftp | Btp | Mi.
 
-Definition units_of (text : list str) : list str :=
-  split_ws (join sUBs (map strip text)).
+(* _units: the units of every line, a marker between two lines *)
+Fixpoint units_of (text : list str) : list str :=
+  match text with
+  | [] => []
+  | [l] => split_ws l
+  | l :: r => split_ws l ++ UB :: units_of r
+  end.
 
 Definition pair_eqb (a b : str * str) : bool :=
   str_eqb (fst a) (fst b) && str_eqb (snd a) (snd b).
@@ -123,10 +130,28 @@ Definition near_mean (d : dep) (vals : list Q) (v : Q) : bool :=
     end
   end.
 
-(* _segment: string plumbing *)
-Definition render (cwords : list (list str)) : list str :=
-  let segtext := join [sp] (map (@concat char) cwords) in
-  map strip (split_on UB (collapse_spaces segtext)).
+(* _segment: the words of each utterance; the marker ends the current utterance *)
+Definition nonempty_w (w : str) : bool := match w with [] => false | _ => true end.
+Definition close_word (word : str) (words : list str) : list str :=
+  if nonempty_w word then words ++ [word] else words.
+
+Fixpoint seg_cword (cw : list str) (word : str) (words utts : list str) : str * list str * list str :=
+  match cw with
+  | [] => (word, words, utts)
+  | u :: r =>
+    if is_ub u then seg_cword r [] [] (utts ++ [join [sp] (close_word word words)])
+    else seg_cword r (word ++ u) words utts
+  end.
+
+Fixpoint seg_cwords (cws : list (list str)) (words utts : list str) : list str :=
+  match cws with
+  | [] => utts ++ [join [sp] words]
+  | cw :: r =>
+    let '(word, words', utts') := seg_cword cw [] words utts in
+    seg_cwords r (close_word word words') utts'
+  end.
+
+Definition render (cwords : list (list str)) : list str := seg_cwords cwords [] [].
 
 Inductive thr := Relative | Absolute.
 
